@@ -343,7 +343,7 @@ func (x *hosted) Transform(ctx context.Context, in *schema.StreamReader[gspec.V]
 	return
 }
 
-func insideNodeCasesPerShard(cfg mon.Config) int64 { return int64(cfg.Pick(12, 30)) }
+func insideNodeCasesPerShard(cfg mon.Config) int64 { return int64(cfg.Pick(12, 80)) }
 
 const insidePfx = ID + "/run-inside-node"
 
